@@ -240,6 +240,52 @@ def judge_vanish(b: Batch, base, tree, as_bytes, r):
         shutil.rmtree(dest_abs, ignore_errors=True)
 
 
+def judge_deep(b: Batch, base, depth, as_bytes):
+    """A renamed tree nested deeper than the interpreter's recursion limit (names of one character: the path still fits
+    PATH_MAX): every level is named, in order, by both generators."""
+    import subprocess
+
+    from watchdog.events import generate_sub_created_events, generate_sub_moved_events
+
+    dest_abs = os.path.join(base, "b")
+    subprocess.run(["rm", "-rf", dest_abs], check=False)
+    cur = dest_abs
+    os.mkdir(cur)
+    for _ in range(depth):  # (os.makedirs recurses)
+        cur = os.path.join(cur, "a")
+        os.mkdir(cur)
+    with open(os.path.join(cur, "f"), "w"):
+        pass
+    src, dest = os.path.join(base, "a"), dest_abs
+    if as_bytes:
+        src, dest = os.fsencode(src), os.fsencode(dest)
+    sep = os.fsencode(os.sep) if as_bytes else os.sep
+    a = b"a" if as_bytes else "a"
+    want_rel = [sep.join([a] * k) for k in range(1, depth + 1)] + [sep.join([a] * depth + [b"f" if as_bytes else "f"])]
+    b.case()
+    b.count("deep_trees_judged")
+    b.nontrivial(["deep", depth, as_bytes])
+    try:
+        for which in ("moved", "created"):
+            try:
+                got = list(generate_sub_moved_events(src, dest)) if which == "moved" else list(generate_sub_created_events(dest))
+            except BaseException as e:  # noqa: BLE001  (RecursionError is not an Exception subclass issue, but be broad)
+                b.violation("sub-events-raised", f"generate_sub_{which}_events raised {type(e).__name__} on a tree {depth} levels deep", witness={"depth": depth, "bytes": as_bytes})
+                continue
+            if which == "moved":
+                got_p = [(e.src_path, e.dest_path) for e in got]
+                want_p = [(src + sep + r_, dest + sep + r_) for r_ in want_rel]
+            else:
+                got_p = [e.src_path for e in got]
+                want_p = [dest + sep + r_ for r_ in want_rel]
+            if got_p != want_p:
+                n_ok = next((i for i, (x, y) in enumerate(zip(got_p, want_p)) if x != y), min(len(got_p), len(want_p)))
+                b.violation(f"sub-{which}-mismatch", f"tree {depth} levels deep: {len(got_p)} events for {len(want_p)} descendants; first difference at level {n_ok}",
+                            witness={"depth": depth, "bytes": as_bytes})
+    finally:
+        subprocess.run(["rm", "-rf", dest_abs], check=False)
+
+
 REKEY_BIAS = {"mkdir": 4, "makedirs": 3, "rename_dir": 8, "rename_file": 4, "create": 3, "move_in": 2, "move_out": 1.5, "rmtree": 1, "rmdir": 1,
               "unlink": 1, "write": 0.3, "chmod": 0.2, "rename_replace": 1}
 
@@ -348,6 +394,9 @@ def run_batch(spec):
                         judge(b, base, tree, spelling, as_bytes, True, comp)
         elif spec["kind"] == "random":
             r = rng_for(spec["seed"], "c14", spec["j"])
+            if spec["j"] == 0:
+                judge_deep(b, base, 1100, False)
+                judge_deep(b, base, 1100, True)
             ext = os.path.join(top, "ext")
             os.makedirs(os.path.join(ext, "a"))
             with open(os.path.join(ext, "o1"), "w"):
